@@ -57,7 +57,7 @@ def shards(tier):
     return [("finite", 2500 * m), ("finite", 2500 * m),
             ("series", 1800 * m), ("series", 1800 * m), ("series", 1800 * m), ("series", 1800 * m),
             ("dbl", 1800 * m), ("dbl", 1800 * m),
-            ("multi", 500 * m), ("multi", 500 * m),
+            ("multi", 420 * m), ("multi", 420 * m),
             ("nprod", 900 * m), ("nprod", 900 * m),
             ("limit", 2500 * m),
             ("extrap", 3000 * m), ("extrap", 3000 * m),
@@ -534,10 +534,6 @@ def atom_abs_sum(M, g, lo, hi):
 
 
 # ------------------------------------------------------------------------------------------------ generation
-
-def _variant_name(m):
-    return m
-
 
 def _opts(d, g, allow_strict=True):
     m, v = _method(d, g)
@@ -1024,11 +1020,6 @@ def _judge(res, M, p, got, exact, scale, bucket, what, absfloor=True, factor=Non
             what, M.nstr(g, 30), M.nstr(exact, 30), ratio,
             "2^(10-p) relative" if factor is None else "rounding bound", note))
     return ratio
-
-
-def _describe(c):
-    import json
-    return json.dumps({k: v for k, v in c.items() if k not in ("kind",)}, sort_keys=True)[:700]
 
 
 def _check_nsum(c, res, mp, M):
